@@ -168,6 +168,7 @@ func (vc *FnVC) defaultCall(fr *frame, st *state, callee *ssa.Function, c *ssa.C
 	na := vc.freshConst("alloc", "Int")
 	vc.assume("true", fmt.Sprintf("(>= %s %s)", na, st.alloc))
 	st.alloc = na
+	vc.boundPendingRefs(st.alloc)
 	if callee != nil && callee.Blocks == nil || callee != nil && !vc.eng.inRepo(callee) {
 		vc.assumption("external function " + key + " assumed to terminate, not to panic, and to modify nothing visible except through pointer arguments")
 	}
@@ -274,7 +275,11 @@ func (vc *FnVC) applyContractN(fr *frame, st *state, sp *FuncSpec, key string, n
 		vc.assume("true", fmt.Sprintf("(>= %s %s)", na, st.alloc))
 		st.alloc = na
 	}
+	vc.boundPendingRefs(st.alloc)
 	res := vc.freshResult(resType, "res:"+shortName(key))
+	if isRefType(resType) {
+		vc.assume("true", fmt.Sprintf("(<= %s %s)", res.t, st.alloc))
+	}
 	vc.bindResults(vars, res, callee)
 	for _, cl := range sp.Clauses {
 		if cl.Kind != "ensures" && cl.Kind != "ghostensures" {
@@ -380,6 +385,9 @@ func (vc *FnVC) havocExpr(cfr *frame, st, pre *state, m Expr, vars map[string]va
 		if id, ok := x.Fun.(*EIdent); ok && id.Name == "heap" && len(x.Args) == 1 {
 			// whole heap array by name, e.g. heap(Directive.Parent)
 			name := x.Args[0].String()
+			if es, ok := x.Args[0].(*EStr); ok {
+				name = es.V
+			}
 			for _, h := range vc.eng.heapNames() {
 				if strings.HasSuffix(h, ":"+name) || strings.HasSuffix(h, "."+name) || strings.HasSuffix(h, "/"+name) {
 					vc.havocHeap(st, h)
